@@ -105,7 +105,7 @@ def run_case(case, ctx):
         sk_from = int(pp.create_sink(g1, int(rng.choice(jg[1:])), float(rng.uniform(0.0005, 0.003)), scaling=float(rng.choice([1.0, 0.9])), name="g2g_sink"))
         src_to = int(pp.create_source(g2, int(rng.choice(jb[1:])), 0.0, name="g2g_src"))
         eff_g2g = float(rng.uniform(0.5, 0.95))
-        GasToGasConversion(mn, sk_from, src_to, efficiency=eff_g2g, name_gas_net_from="gas", name_gas_net_to="gas_b", order=int(rng.integers(0, 3)))
+        GasToGasConversion(mn, sk_from, src_to, efficiency=eff_g2g, name_gas_net_from="gas", name_gas_net_to="gas_b", order=int(rng.integers(0, 3)), level=int(rng.integers(0, 3)))
         nctrl += 1
         expected.append(("g2g", "gas_b", "source", src_to, "mdot_kg_per_s", g1.sink.at[sk_from, "mdot_kg_per_s"] * g1.sink.at[sk_from, "scaling"] * h1 / h2 * eff_g2g, False))
     desc = {"fluids": [f1, f2 if two_gas else None], "controllers": nctrl}
